@@ -227,6 +227,25 @@ func c13(r *engine.Report, p *engine.Program) {
 	r.Extra["ordered_write_pairs"] = nPairs
 	r.Min("R3-monotone-writer", 8)
 
+	// R3b the whole-record overwrite (Save, which does not re-read the stored record) is used only
+	// before a unit is published; afterwards it would write a stale in-memory state back
+	{
+		var callers []string
+		p.AllInstrs(func(fn *ssa.Function, in ssa.Instruction) {
+			if engine.IsMock(fn) || !inPkg(fn, "workceptor") {
+				return
+			}
+			if ci, ok := in.(ssa.CallInstruction); ok && isMethodCall(ci, "Save", "workceptor") {
+				if o := engine.CalleeObj(ci.Common()); o != nil && o.FullName() != "(*"+engine.ModPath+"/pkg/workceptor.StatusFileData).Save" {
+					callers = append(callers, engine.FuncName(engine.Outermost(fn)))
+				}
+			}
+		})
+		sort.Strings(callers)
+		r.Check("R3-monotone-writer", "WorkUnit.Save (overwrite without re-read): callers", token.NoPos, len(callers) == 1 && callers[0] == "(*workceptor.Workceptor).AllocateUnit",
+			"only AllocateUnit, before the unit is published", fmt.Sprintf("Save is called from %v: the daemon's stale in-memory record (e.g. Pending, size 0) overwrites progress the runner already reported — the state moves backwards and the output size shrinks", callers))
+	}
+
 	// R5 cancel / release of command units
 	cc := p.Func("(*workceptor.commandUnit).Cancel")
 	cr := p.Func("(*workceptor.commandUnit).Release")
